@@ -19,11 +19,32 @@ HOSTILE_NAMES = ["a", "A", "aA", "Aa", "AA", "aa", "CON", "con", "nul.alt", "NUL
                  "A" * 63, "a.b.c", "a-b", "a+b", "a~b", "a#b", "a&b", "a'b", "a\"b", "Prn", "aux", "Aux"]
 
 
+# names that must not be confused with each other, in groups: letter-case twins, device names, and *escape twins* - a
+# name containing a character that file-name escaping rewrites, next to the name that spells that escape out literally
+# (whatever the escaping scheme is, the two are different items and need different files)
+CONFUSABLE_GROUPS = [
+    ["a", "A", "aA", "Aa", "AA", "aa"], ["CON", "con", "Con"], ["nul.alt", "NUL.alt"], ["aux", "Aux", "AUX"], ["Prn", "prn"],
+    [".x", "%2Ex", "_x", "x."], ["a%b", "a%25b", "a%2525b"], ['a"b', "a%22b"], ["a*b", "a%2Ab", "a%2ab"], ["a?b", "a%3Fb", "a%3fb"],
+    ["a/b", "a%2Fb", "a_b"], ["a\\b", "a%5Cb"], ["a:b", "a%3Ab"], ["a<b", "a%3Cb"], ["a>b", "a%3Eb"], ["a|b", "a%7Cb"], ["a b", "a%20b"],
+    ["a^b", "a%5Eb", "a^", "a^A"], ["A_", "a__", "_a"], ["é", "É", "e\u0301"], ["ß", "ẞ", "ss"], ["a" * 63, "A" * 63, "a" * 62 + "A"],
+    ["a+b", "a%2Bb"], ["a#b", "a%23b"], ["a&b", "a%26b"], ["a'b", "a%27b"], ["COM1", "com1", "lpt1.liga", "LPT1.liga"],
+]
+
+
 def hostile_model(model, i):
-    """Rename glyphs of a generated model to hostile names (file-name escaping, case collisions)."""
+    """Rename glyphs of a generated model to hostile names, taken in whole confusable groups."""
     import random
     rng = random.Random(f"hostile:{i}:{model.get('seed')}")
-    pool = list(HOSTILE_NAMES)
+    groups = [list(g) for g in CONFUSABLE_GROUPS]
+    rng.shuffle(groups)
+    budget = sum(1 for g in model["glyphs"] if g["name"] != ".notdef")
+    pool = []
+    for g in groups:
+        if len(pool) + len(g) <= budget:
+            pool += g
+    rest = [n for n in HOSTILE_NAMES if n not in pool]
+    rng.shuffle(rest)
+    pool += rest[: max(0, budget - len(pool))]
     rng.shuffle(pool)
     ren = {}
     for g in model["glyphs"]:
